@@ -673,3 +673,44 @@ def check_p2sh_once(ctx, fb, prog, rule="R03.5"):
              "on all %d paths that enter the redeem script the P2SH mark is cleared" % len(entered),
              "after entering the redeem script the session's P2SH mark is %s: a redeem script that itself has the form HASH160 <20> EQUAL is followed by yet another "
              "script taken from the stack, which no listing shows and BIP16 does not execute" % (symx.show(bad[0][1])[:80] if bad and bad[0][1] is not None else "left as it was"))
+
+
+def check_initial_stack(ctx, fb, prog, rule="R03.6"):
+    """The initial stack of a witness session is the witness stack without annex, control block and script - the items themselves,
+    not a re-parsed rendering of them: on every accepting witness path this.stack is filled by a loop that pushes W[i] for i below
+    the size of the stack that is left after those pops."""
+    cf, ok, npaths = setup_outcomes(fb, prog)
+    wit = [o for o in ok if sigver_of(o) in (1, 2, 3)]
+    ctx.site(len(wit))
+    bad_items, bad_count = [], []
+    for o in wit:
+        st = o.heap.get((THIS, "stack"))
+        sv = sigver_of(o)
+        ok_shape = isinstance(st, tuple) and st[:2] == ("ap", "loopvar") and isinstance(st[3], tuple) and st[3][:2] == ("ap", "mut:push_back")
+        if not ok_shape:
+            bad_items.append((sv, symx.show(st)[:80] if st is not None else "not filled in configure_tx_txin (the items are handed on as text)"))
+            continue
+        item = st[3][3]
+        if not (isinstance(item, tuple) and item[:2] == ("ap", "[]") and from_witness(item[2]) and base_stack(item[2]) == item[2]):
+            bad_items.append((sv, symx.show(item)[:80]))
+            continue
+        W = item[2]
+        key = st[2]
+        bound = None
+        if isinstance(key, tuple) and key[:2] == ("ap", "while") and isinstance(key[2], tuple) and key[2][:2] == ("ap", "<"):
+            bound = key[2][3]
+        if sv in (2, 3):
+            annex = exec_field(o, "m_annex_present")
+            k = (2 if sv == 3 else 0) + (1 if annex == C(1) else 0)
+            t = W
+            for _ in range(k):
+                t = ("ap", "mut:pop_back", t)
+            want = [("ap", "m:size", t)] + ([C(1)] if sv == 2 else [])
+            if bound not in want:
+                bad_count.append((sv, symx.show(annex) if annex is not None else "?", symx.show(bound)[:70] if bound is not None else "?"))
+    ctx.inst(not bad_items, rule, "witness-items-verbatim", cf.loc(), "on all %d accepting witness paths the initial stack is filled with the witness items themselves" % len(wit),
+             "the witness items do not reach the session's stack as they are: %s - an item whose hex rendering consists of decimal digits only (a signature like 300602010102010101) is re-read as a number" %
+             (("script version %s: %s" % bad_items[0]) if bad_items else ""))
+    ctx.inst(not bad_count, rule, "initial-stack-excludes-annex-control-script", cf.loc(), "the number of items pushed is the size of the witness stack after removing annex, control block and script",
+             "with script version %s and annex present = %s the session is given %s witness items: the annex (or control block / script) is pushed as an argument - a key-path spend with an annex then checks the annex as the signature" %
+             (bad_count[0] if bad_count else ("", "", "")))
